@@ -86,6 +86,61 @@ Proof.
   destruct (R p Hp) as [A _]. apply N. exact A.
 Qed.
 
+(** * Reachability through the replacement records (any kind), and the worklist closure *)
+Inductive Reach (pm : list (nat * rewrite)) : nat -> nat -> Prop :=
+| R_one a r c : pm_get pm a = Some r -> In c (new_parent_ids r) -> Reach pm a c
+| R_step a r c b : pm_get pm a = Some r -> In c (new_parent_ids r) -> Reach pm c b -> Reach pm a b.
+
+Lemma Reach_snoc pm a b r c : Reach pm a b -> pm_get pm b = Some r -> In c (new_parent_ids r) -> Reach pm a c.
+Proof.
+  induction 1 as [a r0 c0 G0 H0|a r0 c0 b G0 H0 _ IH]; intros G Hc.
+  - eapply R_step; [exact G0|exact H0|]. eapply R_one; eassumption.
+  - eapply R_step; [exact G0|exact H0|]. now apply IH.
+Qed.
+
+Definition targets_of (pm : list (nat * rewrite)) (id : nat) : list nat :=
+  match pm_get pm id with Some r => new_parent_ids r | None => [] end.
+
+Lemma clos_inv pm fuel : forall stack seen pushed seen' pushed' p,
+  clos fuel pm stack seen pushed = Some (seen', pushed') ->
+  (forall s t, In s seen -> In t (targets_of pm s) -> In t pushed) ->
+  (forall t, In t pushed -> In t seen \/ In t stack) ->
+  (In p seen \/ In p stack) ->
+  (forall s t, In s seen' -> In t (targets_of pm s) -> In t pushed') /\
+  (forall t, In t pushed' -> In t seen') /\ In p seen'.
+Proof.
+  induction fuel as [|f IH]; intros stack seen pushed seen' pushed' p H A B C; [discriminate|].
+  cbn [clos] in H. destruct stack as [|id rest].
+  - injection H as <- <-. split; [assumption|]. split.
+    + intros t Ht. destruct (B t Ht) as [|[]]; assumption.
+    + destruct C as [|[]]; assumption.
+  - destruct (memn id seen) eqn:E.
+    + apply memn_In in E. apply (IH _ _ _ _ _ p H); [assumption| |].
+      * intros t Ht. destruct (B t Ht) as [|[<-|]]; auto.
+      * destruct C as [|[<-|]]; auto.
+    + fold (targets_of pm id) in H. apply (IH _ _ _ _ _ p H).
+      * intros s t [<-|Hs] Ht; [apply in_or_app; now left|apply in_or_app; right; eauto].
+      * intros t Ht. apply in_app_or in Ht. destruct Ht as [Ht|Ht].
+        -- right. apply in_or_app. now left.
+        -- destruct (B t Ht) as [|[<-|]]; [left; now right|left; now left|right; apply in_or_app; now right].
+      * destruct C as [|[<-|]]; [left; now right|left; now left|right; apply in_or_app; now right].
+Qed.
+
+Theorem repl_closure_complete pm p cl q : repl_closure pm p = Some cl -> Reach pm p q -> In q cl.
+Proof.
+  unfold repl_closure. destruct (clos (repl_fuel pm) pm [p] [] []) as [[seen pushed]|] eqn:E; [|discriminate].
+  intros H. injection H as <-.
+  destruct (clos_inv pm _ _ _ _ _ _ p E) as [A [B C]].
+  - intros s t [].
+  - intros t [].
+  - right. now left.
+  - assert (G : forall a b, Reach pm a b -> In a seen -> In b pushed).
+    { induction 1 as [a r c Ga Hc|a r c b Ga Hc _ IH]; intros Ha.
+      - apply (A a c Ha). unfold targets_of. now rewrite Ga.
+      - apply IH. apply B. apply (A a c Ha). unfold targets_of. now rewrite Ga. }
+    intros R. now apply (G p q).
+Qed.
+
 (** * Descendants *)
 Lemma desc_marks_spec roots rest : forall pre marked,
   wf_dag (pre ++ rest) ->
@@ -164,6 +219,27 @@ Proof.
   destruct src; cbn [fst set_pm s_g s_pm]; rewrite ?A, ?B; auto.
 Qed.
 
+Lemma add_heads_single_heads s n h :
+  In h (v_heads (s_v (add_heads s [n]))) -> h = n \/ In h (v_heads (s_v s)).
+Proof.
+  unfold add_heads. destruct (forallb _ _); cbn [set_view s_v view_replace_heads view_add_head set_heads v_heads]; intros H.
+  - apply fold_remn_In in H. destruct H as [H _]. now apply ins_In in H.
+  - now apply ins_In in H.
+Qed.
+
+Lemma write_commit_view s c src :
+  v_bms (s_v (fst (write_commit s c src))) = v_bms (s_v s) /\
+  v_wcs (s_v (fst (write_commit s c src))) = v_wcs (s_v s) /\
+  forall h, In h (v_heads (s_v (fst (write_commit s c src)))) -> h = length (s_g s) \/ In h (v_heads (s_v s)).
+Proof.
+  unfold write_commit.
+  set (s' := mk_state (s_g s ++ [c]) (s_v s) (s_pm s)).
+  destruct (add_heads_fields s' [length (s_g s)]) as [_ [_ [A B]]].
+  assert (C : forall h, In h (v_heads (s_v (add_heads s' [length (s_g s)]))) -> h = length (s_g s) \/ In h (v_heads (s_v s))).
+  { intros h Hh. apply add_heads_single_heads in Hh. exact Hh. }
+  destruct src; cbn [fst set_pm s_v]; auto.
+Qed.
+
 Section Loop.
   Variable s0 : state.
   Variable o : rebase_opts.
@@ -175,10 +251,6 @@ Section Loop.
   Let T := find_descendants_for_rebase s0 imm.
   Let Scope := scope s0 imm.
 
-  (** outside the (broad) F5 class: the direct replacement of a rewritten/abandoned parent of a
-      commit to be rebased is not itself rewritten/abandoned *)
-  Hypothesis noF5 : forall x p r t, In x T -> In p (c_parents (getc G0 x)) ->
-    pm_nd pm0 p = Some r -> In t (new_parent_ids r) -> pm_nd pm0 t = None.
   (** replacement targets are in scope (the domain asks for visible) *)
   Hypothesis dom_targets : forall k r t, In (k, r) pm0 -> In t (new_parent_ids r) -> In t Scope.
 
@@ -212,6 +284,9 @@ Section Loop.
     li_parents : forall y, (In y done /\ pm_get (s_pm st) y = None) \/ (n0 <= y < length (s_g st)) ->
                    forall q, In q (c_parents (getc (s_g st) y)) -> Settled done st q;
     li_done_T : forall k, In k done -> In k T;
+    li_heads : forall h, In h (v_heads (s_v st)) -> h < n0 -> In h Scope;
+    li_bms : v_bms (s_v st) = v_bms (s_v s0);
+    li_wcs : v_wcs (s_v st) = v_wcs (s_v s0);
   }.
 
   Lemma LI_init : LI [] s0.
@@ -220,6 +295,8 @@ Section Loop.
     - intros k r [].
     - intros y [[[] _]|H]; fold G0 n0 in H; lia.
     - intros k [].
+    - intros h Hh _. unfold Scope, scope. apply ancs_spec; [apply (j_wf _ J0)|].
+      exists h. split; [apply in_or_app; now left|constructor].
   Qed.
 
   Lemma pm_nd_set_other pm k r z : z <> k -> pm_nd (pm_set k r pm) z = pm_nd pm z.
@@ -238,12 +315,42 @@ Section Loop.
     intros Hz. apply in_or_app. left. auto.
   Qed.
 
-  (** Where the new parents of a commit to be rebased come from. *)
+  (** Where the new parents of a commit to be rebased come from: following the replacement
+      chain, either a processed commit is met (its record points at settled commits), or the whole
+      chain consists of original records, and then its end was processed before by the
+      (transitive) dependency. *)
+  Lemma chain_settled done st x : LI done st -> In x T ->
+    (forall p, In p (c_parents (getc G0 x)) -> In p T -> In p done) ->
+    (forall p q, In p (c_parents (getc G0 x)) -> Reach pm0 p q -> In q T -> In q done) ->
+    forall p, In p (c_parents (getc G0 x)) ->
+    forall a q, Chain (s_pm st) a q -> (a = p \/ Reach pm0 p a) ->
+      a < length (s_g st) -> (a < n0 -> In a Scope) -> Settled done st q.
+  Proof.
+    intros HLI HxT D1 D2 p Hp a q Hc. induction Hc as [a Hend|a r c b Hr Hc1 Hrest IH]; intros Ra La Sa.
+    - split; [assumption|]. split; [assumption|]. split; [|assumption].
+      intros Ht. destruct Ra as [->|Ra]; [now apply D1|eapply D2; eassumption].
+    - destruct (in_dec Nat.eq_dec a done) as [Hd|Hd].
+      + unfold pm_nd, pm_filtered in Hr. destruct (pm_get (s_pm st) a) as [r'|] eqn:G; [|discriminate].
+        destruct (not_divergent r'); [|discriminate]. injection Hr as ->.
+        destruct (li_pm_done _ _ HLI a r Hd G) as [_ S]. specialize (S c Hc1).
+        inversion Hrest as [a' Hend|a' r2 c2 b' Hr2 _ _]; subst; [assumption|].
+        destruct S as [_ [S _]]. congruence.
+      + assert (G0a : pm_get pm0 a = Some r).
+        { rewrite <- (li_pm_other _ _ HLI a Hd). unfold pm_nd, pm_filtered in Hr.
+          destruct (pm_get (s_pm st) a) as [r'|]; [|discriminate].
+          destruct (not_divergent r'); [|discriminate]. congruence. }
+        apply IH.
+        * right. destruct Ra as [->|Ra]; [eapply R_one; eassumption|eapply Reach_snoc; eassumption].
+        * assert (In (a, r) (s_pm st)).
+          { apply pm_get_In. rewrite (li_pm_other _ _ HLI a Hd). exact G0a. }
+          destruct (j_pm _ (li_J _ _ HLI) a r H) as [_ R]. now apply R.
+        * intros _. eapply dom_targets; [apply pm_get_In; exact G0a|exact Hc1].
+  Qed.
+
   Lemma step_np_settled done st x np :
     LI done st -> In x T -> ~ In x done ->
     (forall p, In p (c_parents (getc G0 x)) -> In p T -> In p done) ->
-    (forall p r t, In p (c_parents (getc G0 x)) -> pm_get pm0 p = Some r ->
-                   In t (new_parent_ids r) -> In t T -> In t done) ->
+    (forall p q, In p (c_parents (getc G0 x)) -> Reach pm0 p q -> In q T -> In q done) ->
     new_parents (s_pm st) (c_parents (getc G0 x)) = Ok np ->
     forall q, In q np -> Settled done st q.
   Proof.
@@ -255,42 +362,8 @@ Section Loop.
     { assert (p < x); [|lia]. apply (W0 x p). unfold G0 in Hp. now rewrite parents_pg. }
     assert (Sp : In p Scope).
     { apply (Scope_anc p x Sx). apply anc_parent. unfold G0 in Hp. now rewrite parents_pg. }
-    inversion Hc as [a Hend|a r c1 b Hr Hc1 Hrest]; subst.
-    - (* q = p: an unchanged parent *)
-      split; [pose proof (li_len _ _ HLI); lia|]. split; [assumption|]. split; [auto|auto].
-    - destruct (in_dec Nat.eq_dec p done) as [Hd|Hd].
-      + (* the parent was processed earlier: its record points at settled commits *)
-        unfold pm_nd, pm_filtered in Hr. destruct (pm_get (s_pm st) p) as [r'|] eqn:G; [|discriminate].
-        destruct (not_divergent r'); [|discriminate]. injection Hr as ->.
-        destruct (li_pm_done _ _ HLI p r Hd G) as [_ S]. specialize (S c1 Hc1).
-        inversion Hrest as [a Hend|a r2 c2 b Hr2 _ _]; subst; [assumption|].
-        destruct S as [_ [S _]]. congruence.
-      + (* the parent has an original record *)
-        assert (Hr0 : pm_nd pm0 p = Some r).
-        { unfold pm_nd, pm_filtered in *. now rewrite <- (li_pm_other _ _ HLI p Hd). }
-        pose proof (noF5 x p r c1 HxT Hp Hr0 Hc1) as N1.
-        assert (G0p : pm_get pm0 p = Some r).
-        { unfold pm_nd, pm_filtered in Hr0. destruct (pm_get pm0 p) as [r'|]; [|discriminate].
-          destruct (not_divergent r'); [|discriminate]. congruence. }
-        assert (Sc1 : In c1 Scope) by (eapply dom_targets; [apply pm_get_In; exact G0p|exact Hc1]).
-        assert (Lc1 : c1 < length (s_g st)).
-        { assert (In (p, r) (s_pm st)).
-          { apply pm_get_In. rewrite (li_pm_other _ _ HLI p Hd). exact G0p. }
-          destruct (j_pm _ (li_J _ _ HLI) p r H) as [_ R]. now apply R. }
-        destruct (in_dec Nat.eq_dec c1 done) as [Hd1|Hd1].
-        * inversion Hrest as [a Hend|a r2 c2 b Hr2 Hc2 Hrest2]; subst.
-          -- split; [assumption|]. split; [assumption|]. split; [auto|auto].
-          -- unfold pm_nd, pm_filtered in Hr2.
-             destruct (pm_get (s_pm st) c1) as [r'|] eqn:G; [|discriminate].
-             destruct (not_divergent r'); [|discriminate]. injection Hr2 as ->.
-             destruct (li_pm_done _ _ HLI c1 r2 Hd1 G) as [_ S]. specialize (S c2 Hc2).
-             inversion Hrest2 as [a Hend|a r3 c3 b Hr3 _ _]; subst; [assumption|].
-             destruct S as [_ [S _]]. congruence.
-        * assert (E1 : pm_nd (s_pm st) c1 = None).
-          { unfold pm_nd, pm_filtered in *. now rewrite (li_pm_other _ _ HLI c1 Hd1). }
-          inversion Hrest as [a Hend|a r2 c2 b Hr2 _ _]; subst; [|congruence].
-          split; [assumption|]. split; [assumption|]. split; [|auto].
-          intros Ht. exfalso. apply Hd1. eapply D2; eassumption.
+    apply (chain_settled done st x HLI HxT D1 D2 p Hp p q Hc); [now left| |auto].
+    pose proof (li_len _ _ HLI). lia.
   Qed.
 
   Lemma simplify_filter_nonempty g np : wf_dag g -> np <> [] ->
@@ -307,8 +380,7 @@ Section Loop.
   Lemma LI_step done st x st' :
     LI done st -> In x T -> ~ In x done ->
     (forall p, In p (c_parents (getc G0 x)) -> In p T -> In p done) ->
-    (forall p r t, In p (c_parents (getc G0 x)) -> pm_get pm0 p = Some r ->
-                   In t (new_parent_ids r) -> In t T -> In t done) ->
+    (forall p q, In p (c_parents (getc G0 x)) -> Reach pm0 p q -> In q T -> In q done) ->
     rebase_one st o x = Ok st' -> LI (done ++ [x]) st'.
   Proof.
     intros HLI HxT Hxd D1 D2 H.
@@ -370,6 +442,9 @@ Section Loop.
              ++ rewrite pm_get_set_same in Gy. discriminate.
           -- apply St. eapply (li_parents _ _ HLI); eauto.
         * intros k Hk. apply in_app_or in Hk. destruct Hk as [Hk|[<-|[]]]; [now apply (li_done_T _ _ HLI)|assumption].
+        * apply (li_heads _ _ HLI).
+        * apply (li_bms _ _ HLI).
+        * apply (li_wcs _ _ HLI).
       + (* rebased copy *)
         apply Ok_inj in H. subst st'.
         set (c' := mk_commit np' (c_change c) (c_desc c) (if N.eqb orc 2 then negb (c_empty c) else c_empty c) [x]) in *.
@@ -409,18 +484,22 @@ Section Loop.
              ++ rewrite Gw, getc_app_old in Hq by lia.
                 apply St. eapply (li_parents _ _ HLI); [right; split; [apply Hy|lia]|exact Hq].
         * intros k Hk. apply in_app_or in Hk. destruct Hk as [Hk|[<-|[]]]; [now apply (li_done_T _ _ HLI)|assumption].
+        * destruct (write_commit_view st c' (Some x)) as [_ [_ Hh]]. fold st' in Hh.
+          intros h Hin Lh. destruct (Hh h Hin) as [->|Hold]; [lia|]. now apply (li_heads _ _ HLI).
+        * destruct (write_commit_view st c' (Some x)) as [Hb _]. fold st' in Hb. rewrite Hb. apply (li_bms _ _ HLI).
+        * destruct (write_commit_view st c' (Some x)) as [_ [Hw _]]. fold st' in Hw. rewrite Hw. apply (li_wcs _ _ HLI).
   Qed.
 
   (** ** Orders that respect the dependencies the implementation computes: a parent that is to
-      be rebased, and a to-be-rebased direct replacement of a rewritten parent, come first. *)
+      be rebased, and every to-be-rebased commit reached from a parent by following the
+      replacement records, come first. *)
   Fixpoint valid_from (done order : list nat) : Prop :=
     match order with
     | [] => True
     | x :: t =>
         In x T /\ ~ In x done /\
         (forall p, In p (c_parents (getc G0 x)) -> In p T -> In p done) /\
-        (forall p r t', In p (c_parents (getc G0 x)) -> pm_get pm0 p = Some r ->
-                        In t' (new_parent_ids r) -> In t' T -> In t' done) /\
+        (forall p q, In p (c_parents (getc G0 x)) -> Reach pm0 p q -> In q T -> In q done) /\
         valid_from (done ++ [x]) t
     end.
 
@@ -601,8 +680,9 @@ Proof.
   - intros p Hp HpT. specialize (H3 p Hp). apply andb_true_iff in H3. destruct H3 as [H3 _].
     apply orb_true_iff in H3. destruct H3 as [H3|H3]; [|now apply memn_In].
     apply negb_true_iff, memn_false in H3. contradiction.
-  - intros p r t' Hp Gp Ht' HtT. specialize (H3 p Hp). apply andb_true_iff in H3. destruct H3 as [_ H3].
-    rewrite Gp in H3. rewrite forallb_forall in H3. specialize (H3 t' Ht').
+  - intros p q Hp HR HqT. specialize (H3 p Hp). apply andb_true_iff in H3. destruct H3 as [_ H3].
+    destruct (repl_closure (s_pm s0) p) as [cl|] eqn:E; [|discriminate].
+    rewrite forallb_forall in H3. specialize (H3 q (repl_closure_complete _ _ _ _ E HR)).
     apply orb_true_iff in H3. destruct H3 as [H3|H3]; [|now apply memn_In].
     apply negb_true_iff, memn_false in H3. contradiction.
 Qed.
